@@ -181,7 +181,13 @@ def _mk_env(interp, name):
     return process_result_reporter.Environment(Any_.make(interp, name + '.std_files'), printers)
 
 
-ENVIRONMENT = Custom(_mk_env)
+def _mk_env_concrete(cx, name):
+    out = Iface(PrinterI).concrete(cx, name + '.out')
+    err = Iface(PrinterI).concrete(cx, name + '.err')
+    return process_result_reporter.Environment(object(), process_result_reporter.StdOutputFilePrinters(out, err))
+
+
+ENVIRONMENT = Custom(_mk_env, concrete=_mk_env_concrete)
 
 # assumed: the renderers of error messages write to the printer they are given and to nothing else
 M.contract('exactly_lib.common.result_reporting:print_error_message_for_full_result', trusted=True,
@@ -212,7 +218,12 @@ def _mk_reporter(cls):
         r._reporting_environment = _mk_env(interp, name + '.env')
         return r
 
-    return Custom(mk)
+    def mk_concrete(cx, name):
+        r = object.__new__(cls)
+        r._reporting_environment = _mk_env_concrete(cx, name + '.env')
+        return r
+
+    return Custom(mk, concrete=mk_concrete)
 
 
 NORMAL = _mk_reporter(result_reporting._ResultReporterForNormalOutput)
